@@ -41,6 +41,7 @@ def run(ctx):
     trees = fc_trees(ctx)
     terms, meta = [], []
     n_nontrivial = 0
+    minimal_of = {}
     from ahbicht.expressions.format_constraint_expression_evaluation import evaluate_format_constraint_tree
     from ahbicht.models.condition_nodes import EvaluatedFormatConstraint
 
@@ -91,6 +92,18 @@ def run(ctx):
                             ctx.fail(key + "|msg", {"fc_expression": s, "fc": {k: list(v) for k, v in fc.items()}}, "error message iff unfulfilled", f"fulfilled={raw[1].format_constraints_fulfilled} message={raw[1].error_message!r}", "oracle: message iff unfulfilled")
                     if t[0] != "L":
                         n_nontrivial += 1
+                    # the same expression written with ONLY the brackets the documented precedence needs, operators in mixed spellings: same value
+                    if mode == "std" and t[0] != "L":
+                        if id(t) not in minimal_of:
+                            from vlib.props import c05
+
+                            minimal_of[id(t)] = c05.minimal(t, ctx.rng)
+                        s2 = minimal_of[id(t)]
+                        raw2 = evalimpl.outcome(lambda: evalimpl.fc_evaluation(s2))
+                        got2 = raw2[1].format_constraints_fulfilled if raw2[0] == "ok" else f"raises {raw2[1]}"
+                        if got2 != want:
+                            ctx.fail(f"{s2}|{sorted(fc.items())}|minimal-brackets", {"fc_expression": s2, "fully_bracketed": s, "fc": {k: list(v) for k, v in fc.items()}}, f"fulfilled={want}",
+                                     f"fulfilled={got2}", "oracle: Boolean value of the expression written with the brackets the precedence needs only")
     # absent / empty expression
     for e in (None, ""):
         evalimpl.set_cer(fc={})
@@ -108,6 +121,18 @@ def run(ctx):
     ctx.notes["correspondence"] = {"fc": {"cases": n, "mismatches": len(bad)}}
     # the default message of the shipped base evaluator (C08_default_message)
     _default_message_check(ctx)
+    # format-constraint evaluators that really suspend, with different latencies per key: the verdict is the Boolean value, whatever the completion order
+    from vlib import latency
+
+    lat = []
+    for t in trees:
+        ks = [k for k in exprs.leaves(t)]
+        if 2 <= len(set(ks)) <= 4 and all(x[0] != "then" for x in _nodes(t)):
+            lat.append((exprs.to_string(t), ks))
+    ctx.rng.shuffle(lat)
+    ctx.add_eval(latency.fc_latency_oracle(ctx, lat, "oracle: the verdict of format_constraint_evaluation does not depend on how long the single format-constraint evaluators take",
+                                           n_max=10 if ctx.quick else 150))
+    evalimpl._configured = False  # pylint: disable=protected-access
     ctx.add_eval(n)
     ctx.coverage["distinct_nontrivial"] = n_nontrivial
     ctx.coverage["rule"] = ("all FC-only trees with <= 3 (quick) / 4 (thorough) leaves over 3 keys x U/O/X x all truth assignments x message modes "
